@@ -1,5 +1,6 @@
 (** C05 -- pinned statements only.  [L] is everything in the sequencer state except the oracle
-    store, [R] the validator / consensus-param updates; [l_pre] (upgrade + begin_block), [l_check]
+    store, [R] the validator / consensus-param updates; [l_pre] (upgrade + begin_block: it sees the
+    request's misbehavior, time, proposer, next validators hash, last commit: [bmeta]), [l_check]
     (CheckedTransaction::new), [l_exec] (transaction execution), [l_post] (end_block ..), [commit_of]
     (rollup data commitments), [uh_at] (upgrade change hashes), [height_of] are arbitrary
     deterministic functions.  [decide a rs D] = the rounds [rs] of one height (PrepareProposal /
@@ -13,8 +14,8 @@ From Coq Require Import Permutation.
     height give the same FinalizeBlock outcome (response incl. the resulting state, or the same
     error) and the same committed state. *)
 Theorem C05_path_independent :
-  forall (L R : Type) (l_pre : L -> N -> L) (l_check : L -> tx -> bool) (l_exec : L -> tx -> xres L)
-         (l_post : L -> N -> L * R) (commit_of : L -> list tx -> list N) (uh_at height_of : N -> N)
+  forall (L R : Type) (l_pre : L -> bmeta -> L) (l_check : L -> tx -> bool) (l_exec : L -> tx -> xres L)
+         (l_post : L -> N -> bmeta -> L * R) (commit_of : L -> list tx -> list N) (uh_at height_of : bmeta -> N)
          (c : state L) (D : block),
     known_f7 (b_data D) = false ->
     forall rs1 rs2 : list round,
@@ -67,8 +68,8 @@ Print Assumptions C05_stale_mempool_refuted.
 (** No legal call sequence makes FinalizeBlock fail where another one succeeds (same side
     condition). *)
 Theorem C05_no_path_dependent_failure :
-  forall (L R : Type) (l_pre : L -> N -> L) (l_check : L -> tx -> bool) (l_exec : L -> tx -> xres L)
-         (l_post : L -> N -> L * R) (commit_of : L -> list tx -> list N) (uh_at height_of : N -> N)
+  forall (L R : Type) (l_pre : L -> bmeta -> L) (l_check : L -> tx -> bool) (l_exec : L -> tx -> xres L)
+         (l_post : L -> N -> bmeta -> L * R) (commit_of : L -> list tx -> list N) (uh_at height_of : bmeta -> N)
          (c : state L) (D : block) (rs1 rs2 : list round) res r s,
     known_f7 (b_data D) = false ->
     legal L R l_pre l_check l_exec commit_of uh_at c rs1 D ->
@@ -83,8 +84,8 @@ Print Assumptions C05_no_path_dependent_failure.
 (** Multi-block histories: two nodes that see the same decided blocks, each along its own legal
     call paths, report the same outcomes and end in the same committed state. *)
 Theorem C05_history_independent :
-  forall (L R : Type) (l_pre : L -> N -> L) (l_check : L -> tx -> bool) (l_exec : L -> tx -> xres L)
-         (l_post : L -> N -> L * R) (commit_of : L -> list tx -> list N) (uh_at height_of : N -> N)
+  forall (L R : Type) (l_pre : L -> bmeta -> L) (l_check : L -> tx -> bool) (l_exec : L -> tx -> xres L)
+         (l_post : L -> N -> bmeta -> L * R) (commit_of : L -> list tx -> list N) (uh_at height_of : bmeta -> N)
          (c : state L) (h1 h2 : list (list round * block)),
     map snd h1 = map snd h2 ->
     history_legal L R l_pre l_check l_exec l_post commit_of uh_at height_of c h1 ->
@@ -131,3 +132,30 @@ Theorem C05_paths_exercised :
   x_decide (c_init x_c) path_VRX ok_D = x_decide (c_init x_c) path_F ok_D.
 Proof. exact paths_exercised. Qed.
 Print Assumptions C05_paths_exercised.
+
+(** The cached-proposal comparison is exact: ProcessProposal takes a request for the proposal it
+    prepared only if time, proposer, txs, last commit, misbehavior, next validators hash and height
+    all agree. *)
+Theorem C05_cached_compare_exact :
+  forall p q : proposal, proposal_eqb p q = true <-> p = q.
+Proof. exact cached_compare_exact. Qed.
+Print Assumptions C05_cached_compare_exact.
+
+(** Non-vacuity for near twins: seven blocks equal to a proposal the node prepared / processed
+    except for one request field (misbehavior, time, proposer, next validators hash, last-commit
+    round, last-commit votes, block hash), each decided after six different earlier views of the
+    height: all legal, all with the result of the fresh path; the evidence removes validator 2 on
+    the node that had prepared the evidence-free proposal, whose own proposal would have kept it. *)
+Theorem C05_near_twins_exercised :
+  Forall (fun T => b_data T = b_data ok_D /\ T <> ok_D) near_twins /\
+  Forall (fun T => Forall (fun rs => x_legal x_c rs T) (nt_paths T)) near_twins /\
+  Forall (fun T => Forall (fun rs => x_decide (c_init x_c) rs T = x_decide (c_init x_c) [] T) (nt_paths T))
+         near_twins /\
+  (exists res r s, x_decide (c_init x_c) [RProposer x_meta ok_mem ok_prices None; RValidator nt_misb] nt_misb
+                   = (OFinalized cledger N res r s, Some s) /\
+                   cl_vals (s_l s) = [(0, 10); (1, 10); (3, 10)]) /\
+  (exists res r s, x_decide (c_init x_c) [RProposer x_meta ok_mem ok_prices (Some 78)] ok_D
+                   = (OFinalized cledger N res r s, Some s) /\
+                   cl_vals (s_l s) = [(0, 10); (1, 10); (2, 10); (3, 10)]).
+Proof. exact near_twins_exercised. Qed.
+Print Assumptions C05_near_twins_exercised.
